@@ -37,6 +37,9 @@ pub enum Dom {
     AmbNonPos,
     /// integer count, documented `x >= n`
     CountGe(u64),
+    /// enum / bool valued builder option with values `0..n`: no range of its own, every value is valid; the verdict
+    /// of the numeric parameters must not depend on it
+    Choice(u64),
     /// categorical parameter with values `0..n`; the value `bad` is documented as an error, the others are valid
     Category { n: u64, bad: u64 },
     /// integer count, `x >= n` in range, below ambiguous (range table and error list of the docs disagree)
@@ -107,6 +110,7 @@ impl Dom {
             }
             Dom::CountGe(n) => b(x >= n as f64),
             Dom::Category { bad, .. } => b(x != bad as f64),
+            Dom::Choice(_) => In,
             Dom::CountGeAmbBelow(n) => {
                 if x >= n as f64 {
                     In
@@ -145,7 +149,7 @@ impl Dom {
                 f64::EPSILON,
                 up(f64::EPSILON),
             ],
-            Dom::Category { n, .. } => (0..n).map(|k| k as f64).collect(),
+            Dom::Category { n, .. } | Dom::Choice(n) => (0..n).map(|k| k as f64).collect(),
             Dom::CountGe(n) | Dom::CountGeAmbBelow(n) => {
                 let mut v = vec![];
                 if n >= 2 {
@@ -213,6 +217,11 @@ pub const fn p32(
     safe: (f64, f64),
 ) -> ParamSpec {
     ParamSpec { name, dom, default, inside, safe, single: true }
+}
+
+/// option with `n` values, default 0, trained with the values `0..=safe_max`
+pub const fn opt(name: &'static str, n: u64, safe_max: f64) -> ParamSpec {
+    ParamSpec { name, dom: Dom::Choice(n), default: 0.0, inside: &[], safe: (0.0, safe_max), single: false }
 }
 
 pub fn combine(parts: impl IntoIterator<Item = Expect>) -> Expect {
